@@ -393,7 +393,9 @@ class Tuner:
         :param metadata: Original metadata
         :return: ``metadata`` enriched by default entries
         """
-        res = metadata if metadata is not None else dict()
+        # Work on a copy: the dictionary of the caller must neither be modified
+        # nor be shared with other tuners it is passed to
+        res = dict(metadata) if metadata is not None else dict()
         self._set_metadata(res, ST_TUNER_CREATION_TIMESTAMP, time.time())
         self._set_metadata(res, "entrypoint", self.trial_backend.entrypoint_path().stem)
         self._set_metadata(res, "backend", str(type(self.trial_backend).__name__))
